@@ -35,7 +35,13 @@ type Cfg struct {
 	Hot      int    `json:"hot"`     // > 0: that many hot value-log buckets, a key turns hot after 2 writes
 }
 
+type KV struct {
+	K string `json:"k"`
+	V string `json:"v"`
+}
+
 type Op struct {
+	W     []KV    `json:"w,omitempty"` // ParSet: writes issued concurrently (distinct keys)
 	Op    string  `json:"op"`
 	CF    string  `json:"cf,omitempty"`
 	K     string  `json:"k,omitempty"`
@@ -56,6 +62,7 @@ type Schedule struct {
 	Vers    []int    `json:"vers"`    // versions probed for VKeys
 	CFs     []string `json:"cfs"`     // column families probed (default: ["default"])
 	ReadAll bool     `json:"readall"` // read everything after every step
+	Txn     bool     `json:"txn"`     // read back through read-only transactions (transactional datasets)
 	Ops     []Op     `json:"ops"`
 }
 
@@ -328,10 +335,28 @@ func (r *Runner) srcs(cf kv.ColumnFamily, k string) []map[string]any {
 
 func (r *Runner) get(cfs, k string) {
 	cf := ParseCF(cfs)
-	e, err := r.DB.GetCF(cf, []byte(k))
-	res := errStr(err)
-	if err == nil {
-		res = Shrink(e.Value)
+	var res string
+	if r.Sch != nil && r.Sch.Txn {
+		var val []byte
+		err := r.DB.View(func(txn *NoKV.Txn) error {
+			it, e := txn.Get([]byte(k))
+			if e != nil {
+				return e
+			}
+			var e2 error
+			val, e2 = it.ValueCopy(nil)
+			return e2
+		})
+		res = errStr(err)
+		if err == nil {
+			res = Shrink(val)
+		}
+	} else {
+		e, err := r.DB.GetCF(cf, []byte(k))
+		res = errStr(err)
+		if err == nil {
+			res = Shrink(e.Value)
+		}
 	}
 	if cfs == "" {
 		cfs = "default"
@@ -399,6 +424,38 @@ func (r *Runner) Exec(op Op) {
 		r.emit(vt.Ev{"e": "Del", "cf": cfs, "k": op.K, "ok": err == nil, "err": errStr(err)})
 	case "Get":
 		r.get(op.CF, op.K)
+	case "TSet", "TDel":
+		// the same write through the transactional API (one transaction per write)
+		err := r.DB.Update(func(txn *NoKV.Txn) error {
+			if op.Op == "TDel" {
+				return txn.Delete([]byte(op.K))
+			}
+			return txn.Set([]byte(op.K), Expand(op.V, r.valLen(op)))
+		})
+		if op.Op == "TDel" {
+			r.emit(vt.Ev{"e": "Del", "cf": cfs, "k": op.K, "ok": err == nil, "err": errStr(err)})
+		} else {
+			r.emit(vt.Ev{"e": "Set", "cf": cfs, "k": op.K, "v": op.V, "ok": err == nil, "err": errStr(err)})
+		}
+	case "ParSet":
+		// several plain writes to distinct keys issued at the same time so that the commit worker
+		// coalesces them into one batch; distinct keys commute, so events are emitted afterwards
+		errs := make([]error, len(op.W))
+		var wg sync.WaitGroup
+		start := make(chan struct{})
+		for i := range op.W {
+			wg.Add(1)
+			go func(i int) {
+				defer wg.Done()
+				<-start
+				errs[i] = r.DB.SetCF(cf, []byte(op.W[i].K), Expand(op.W[i].V, r.valLen(op)))
+			}(i)
+		}
+		close(start)
+		wg.Wait()
+		for i, w := range op.W {
+			r.emit(vt.Ev{"e": "Set", "cf": cfs, "k": w.K, "v": w.V, "ok": errs[i] == nil, "err": errStr(errs[i])})
+		}
 	case "SetV":
 		err := r.DB.SetVersionedEntry(cf, []byte(op.K), Ver(op.Ver), Expand(op.V, r.valLen(op)), 0)
 		r.emit(vt.Ev{"e": "SetV", "cf": cfs, "k": op.K, "ver": op.Ver, "v": op.V, "ok": err == nil, "err": errStr(err)})
